@@ -193,7 +193,10 @@ static void c03_check(cbor_item_t* it, const rnode* shadow) {
   size_t cap = want.n + 64;
   uint8_t* out = malloc(cap);
   memset(out, 0x5e, cap);
+  VH_POISON(out, cap);
   size_t w = cbor_serialize(it, out, cap);
+  if (w && w <= cap) { long u = VH_UNINIT_AT(out, w); if (u >= 0) vh_violation("serialized-uninitialised-memory", "byte %ld of the %zu serialized bytes comes from uninitialised memory", u, w); }
+  VH_UNPOISON(out, cap);
   if (w != want.n || memcmp(out, want.p, want.n)) {
     struct vh_buf pr = {0};
     walk_print_item(it, &pr);
